@@ -13,14 +13,23 @@ PROPERTY = "C09"
 PRELOAD_NETWORK_ORDERS = [["btc", "xtn", "ltc", "bch", "grs", "doge", "dash", "btg"], ["btg", "grs", "bch", "doge", "ltc", "xtn", "btc"]]
 LEVEL = "exploration"
 TECHNIQUE = ("differential runtime monitor of BIP32/49/84 nodes vs a from-the-BIP reference at every derivation step; "
-             "public/private commutation, text round trip per network, path spellings, sub-key cache histories vs fresh nodes")
+             "public/private commutation, text round trip per network (every documented parse entry point), path spellings, "
+             "sub-key cache histories vs fresh nodes with read-only queries / failing calls interleaved on every reused node")
 RULE = ("cases: (network, seed of 16..64 bytes incl. the BIP vectors, path of depth 0..8 (one of depth 255) with indices "
         "biased to 0,1,255,256,2^16,2^24-1,2^24,2^31-1, hardened or not, hardened steps spelled H/p/') -> all fields and both "
         "texts vs the reference, step-wise vs path derivation, commutation with public_copy on the non-hardened tail, "
         "hardened-from-public refusal, text round trip; synthetic extended keys with boundary fields on every network "
         "defining bip32/bip49/bip84 prefixes; range expressions through subkeys(); call histories (index, hardened, "
-        "as_private) with repeats on one shared node compared call by call with a fresh node and the reference; Electrum "
-        "wallets private vs public. Distinct by (kind, network, seed, path / fields / call list); non-trivial when at least "
+        "as_private) with repeats on one shared node compared call by call with a fresh node and the reference; in two "
+        "thirds of the derive / history cases and half of the synthetic ones, 0..3 operations drawn from the catalogue "
+        "QUERIES (every non-deriving public method of a node with each value of its optional arguments: fingerprint / "
+        "hash160 / sec / address / wif compressed, uncompressed, default; hwif / serialize private, public, default; "
+        "ku_output*, repr, sign, verify, public_copy, override_network, '.pub', children(), and calls that fail: negative / "
+        "too large index, malformed paths, hardened on public) are issued FIRST on the master, on every intermediate node, "
+        "on both sides of the commutation, on the shared node between calls, on each child handed out (it stays cached) "
+        "and on the late public copy; children(max_level, start_index, include_hardened) as a derivation entry point; "
+        "child texts re-parsed through parse.<bip>, <bip>_prv/_pub, hierarchical_key, secret, parse(text); Electrum "
+        "wallets private vs public. Distinct by (kind, network, seed, path / fields / call list / queries); non-trivial when at least "
         "one child derivation or one parse is involved (depth-0 master-only cases are trivial).")
 ASSUMPTIONS = [
     "vmon/refs/bip32.py is correct (self-tested on every run: BIP32 test vectors 1 and 2, every chain, both texts; "
@@ -34,6 +43,13 @@ ASSUMPTIONS = [
     "cache transparency: the n-th call on a long-lived node must equal the same call on a node freshly parsed from "
     "the long-lived node's own text",
     "Electrum: only private/public commutation is demanded (the statement says no more)",
+    "what the interleaved queries (address, WIF, fingerprint(is_compressed=...), ku_output, ...) return is not judged and "
+    "neither is whether the deliberately invalid calls raise; only the derivations, fields and texts observed afterwards "
+    "on the same objects are (histories are quantified in the statement, those values are not)",
+    "children(): each yielded node must be the child the standard defines for the child number it carries; which numbers "
+    "are yielded is not judged; a public-only node may raise once a hardened child is due",
+    "parse.hierarchical_key / parse.secret / parse(text) / parse.<bip>_prv / _pub are documented ways to read an extended "
+    "key text, so the round trip is demanded through them as well",
 ]
 EXPLANATION = ("held = every observed secret exponent, public pair, chain code, depth, parent fingerprint, child number and "
                "xprv/xpub (yprv/zprv...) text equalled the reference; public derivation equalled the public half of private "
@@ -134,9 +150,27 @@ def diff_fields(got, ref, private):
     return None
 
 
-def node_from_text(ctx, code, bip, text, rec):
+VIAS = (None, "split", "hierarchical_key", "secret", "call")
+
+
+def node_from_text(ctx, code, bip, text, rec, via=None, private=None):
+    """text -> node through network.parse.<bip> or, when `via` says so, one of the other documented entry points that
+    accept an extended key: parse.<bip>_prv / _pub, parse.hierarchical_key, parse.secret (private texts), parse(text)."""
+    parse = ctx.nets[code].parse
+    if via == "split" and private is not None:
+        rec.ev("parse.%s.split" % bip)
+        return observe(getattr(parse, "%s_%s" % (bip, "prv" if private else "pub")), text)
+    if via == "secret" and private:
+        rec.ev("parse.secret")
+        return observe(parse.secret, text)
+    if via in ("hierarchical_key", "secret"):
+        rec.ev("parse.hierarchical_key")
+        return observe(parse.hierarchical_key, text)
+    if via == "call" and private:
+        rec.ev("parse.call")
+        return observe(parse, text)
     rec.ev("parse." + bip)
-    return observe(getattr(ctx.nets[code].parse, bip), text)
+    return observe(getattr(parse, bip), text)
 
 
 def make_node(ctx, code, bip, ref, private, rec):
@@ -148,6 +182,86 @@ def make_node(ctx, code, bip, ref, private, rec):
 
 
 # ---------------------------------------------------------------------------------------------------------
+# read-only queries and failing calls: the whole public surface of a node that is NOT a judged derivation, with every
+# value of its optional arguments.  They are used as perturbations: issued on a long-lived node (master, intermediate
+# node, public copy, cached child) before / between the judged derivations.  What they return is not judged (the
+# statement does not speak about addresses, WIF, ...); what the node derives afterwards is.
+
+H32 = bytes(range(1, 33))
+SIG = bytes.fromhex("3006020101020101")
+
+
+def _other_network(n, ctx):
+    for code in ("XTN", "BTC", "LTC"):
+        if code in ctx.nets and ctx.nets[code] is not getattr(n, "_network", None):
+            return ctx.nets[code]
+    return ctx.nets[ctx.codes[0]]
+
+
+def _tri(name, fn):
+    return {name: lambda n, ctx: fn(n)(), name + "_c": lambda n, ctx: fn(n)(is_compressed=True),
+            name + "_u": lambda n, ctx: fn(n)(is_compressed=False)}
+
+
+QUERIES = {}
+for _name in ("fingerprint", "hash160", "sec", "sec_as_hex", "address", "wif"):
+    QUERIES.update(_tri(_name, (lambda nm: lambda n: getattr(n, nm))(_name)))
+QUERIES.update({
+    "hwif": lambda n, ctx: n.hwif(), "hwif_prv": lambda n, ctx: n.hwif(as_private=True),
+    "hwif_pub": lambda n, ctx: n.hwif(as_private=False), "as_text": lambda n, ctx: n.as_text(),
+    "serialize": lambda n, ctx: n.serialize(), "serialize_prv": lambda n, ctx: n.serialize(as_private=True),
+    "serialize_pub": lambda n, ctx: n.serialize(as_private=False),
+    "public_copy": lambda n, ctx: n.public_copy(),
+    "public_copy_derives": lambda n, ctx: n.public_copy().subkey(0),
+    "is_private": lambda n, ctx: n.is_private(), "is_compressed": lambda n, ctx: n.is_compressed(),
+    "master_public_key": lambda n, ctx: n.master_public_key(), "master_private_key": lambda n, ctx: n.master_private_key(),
+    "repr": lambda n, ctx: repr(n), "str": lambda n, ctx: str(n),
+    "ku_output": lambda n, ctx: list(n.ku_output()), "ku_output_hk": lambda n, ctx: list(n.ku_output_for_hk()),
+    "ku_output_address": lambda n, ctx: list(n.ku_output_for_address()),
+    "ku_output_public_pair": lambda n, ctx: list(n.ku_output_for_public_pair()),
+    "sign": lambda n, ctx: n.sign(H32), "verify": lambda n, ctx: n.verify(H32, SIG),
+    "dot_pub": lambda n, ctx: n.subkey_for_path(".pub"), "empty_path": lambda n, ctx: n.subkey_for_path(""),
+    "children0": lambda n, ctx: list(n.children(max_level=0, include_hardened=False)),
+    "children0H": lambda n, ctx: list(n.children(max_level=0, start_index=1)),
+    "subkeys_one": lambda n, ctx: list(n.subkeys("0")),
+    "subkey_default": lambda n, ctx: n.subkey(),
+    "subkey_public_hardened": lambda n, ctx: n.subkey(1, is_hardened=True, as_private=False),
+    "override_network": lambda n, ctx: n.override_network(_other_network(n, ctx)),
+    # calls that fail (all of them, or on public-only nodes)
+    "bad_negative": lambda n, ctx: n.subkey(-1), "bad_too_large": lambda n, ctx: n.subkey(1 << 31),
+    "bad_too_large_hardened": lambda n, ctx: n.subkey(1 << 31, True),
+    "bad_path_late": lambda n, ctx: n.subkey_for_path("0/x"), "bad_path_gap": lambda n, ctx: n.subkey_for_path("1//2"),
+    "bad_path_hardened_late": lambda n, ctx: n.subkey_for_path("0/1H/x.pub"),
+    "bad_path_negative": lambda n, ctx: n.subkey_for_path("0/-1"),
+    "bad_path_too_large": lambda n, ctx: n.subkey_for_path("2147483648"),
+    "bad_subkeys": lambda n, ctx: list(n.subkeys("0-1/x")),
+    "bad_children": lambda n, ctx: list(n.children(max_level=1, start_index=(1 << 31) - 1)),
+})
+QNAMES = sorted(QUERIES)
+
+
+def do_queries(node, names, rec, ctx):
+    """issue the named queries on `node`, whatever they return or raise (names of another version are skipped)"""
+    for name in names or ():
+        fn = QUERIES.get(name)
+        if fn is None:
+            continue
+        rec.ev("query")
+        st, _ = observe(fn, node, ctx)
+        rec.ev("query.ok" if st == "ok" else "query.raised")
+
+
+def gen_queries(rng, sizes=(0, 1, 1, 2, 3)):
+    return [rng.choice(QNAMES) for _ in range(rng.choice(sizes))]
+
+
+def freeze(x):
+    if isinstance(x, (list, tuple)):
+        return tuple(freeze(y) for y in x)
+    return x
+
+
+# ---------------------------------------------------------------------------------------------------------
 # kind "derive"
 
 def chk_derive(case, rec, ctx):
@@ -155,7 +269,8 @@ def chk_derive(case, rec, ctx):
     marks = case.get("marks", "H")
     net = ctx.nets[code]
     prv, pub = ctx.prefixes[code]["bip32"]
-    rec.case(("derive", code, seed, tuple(path), marks), nontrivial=len(path) > 0)
+    q_master, q_step, q_pub = case.get("q_master", []), case.get("q_step", []), case.get("q_pub", [])
+    rec.case(("derive", code, seed, tuple(path), marks, tuple(q_master), tuple(q_step), tuple(q_pub)), nontrivial=len(path) > 0)
     try:
         rm = RB.master(seed)
         rnodes = [rm]
@@ -173,6 +288,7 @@ def chk_derive(case, rec, ctx):
     st, m = observe(net.keys.bip32_seed, seed)
     if st != "ok":
         return V("bip32.master_raises", m, "a node")
+    do_queries(m, q_master, rec, ctx)      # whatever is asked of the master first, it and its descendants are the same
     d = diff_fields(fields_of(m, rec), rm, True)
     if d:
         return V("bip32.master." + d[0], d[1], d[2])
@@ -195,6 +311,7 @@ def chk_derive(case, rec, ctx):
     st, m2 = observe(net.keys.bip32_seed, seed)
     cur = m2
     for k, i in enumerate(path):
+        do_queries(cur, q_step, rec, ctx)
         rec.ev("subkey")
         st, cur = observe(cur.subkey, i & (HARD - 1), i >= HARD)
         if st != "ok":
@@ -227,6 +344,8 @@ def chk_derive(case, rec, ctx):
     d = diff_fields(fields_of(pubP, rec), rnodes[cut], False)
     if d:
         return V("bip32.public_copy." + d[0], d[1], d[2])
+    do_queries(P, q_pub, rec, ctx)
+    do_queries(pubP, q_pub, rec, ctx)
     rec.ev("commutation")
     st, a = observe(lambda: P.subkey_for_path(tail_text).public_copy())
     st2, b = observe(pubP.subkey_for_path, tail_text)
@@ -313,8 +432,11 @@ def run_derive(spec, rec, ctx):
         if code not in ctx.nets:
             code = ctx.codes[0]
         marks = "".join(rng.choice("Hp'") for _ in range(3))
-        chk_derive({"kind": "derive", "net": code, "seed": gen_seed(rng, k), "path": path, "marks": marks,
-                    "hard_index": rng.choice([0, 1, (1 << 31) - 1, rng.randrange(HARD)])}, rec, ctx)
+        case = {"kind": "derive", "net": code, "seed": gen_seed(rng, k), "path": path, "marks": marks,
+                "hard_index": rng.choice([0, 1, (1 << 31) - 1, rng.randrange(HARD)])}
+        if k % 3:       # two thirds of the cases: read-only queries / failing calls on the nodes derived from
+            case.update({"q_master": gen_queries(rng), "q_step": gen_queries(rng), "q_pub": gen_queries(rng)})
+        chk_derive(case, rec, ctx)
 
 
 # ---------------------------------------------------------------------------------------------------------
@@ -328,13 +450,16 @@ def chk_synthetic(case, rec, ctx):
     ref = RB.Node(k, RB.point(k), case["chain_code"], case["depth"], case["pfp"], case["child"])
     if not private:
         ref = ref.neuter()
-    rec.case(("syn", code, bip, private, k, case["chain_code"], case["depth"], case["pfp"], case["child"]))
+    pre, pre_pub, via = case.get("pre", []), case.get("pre_pub", []), case.get("via")
+    rec.case(("syn", code, bip, private, k, case["chain_code"], case["depth"], case["pfp"], case["child"],
+              tuple(pre), tuple(pre_pub), via))
 
     def V(mech, observed, expected):
         rec.violation(mech, case, observed, expected)
     st, node, text = make_node(ctx, code, bip, ref, private, rec)
     if st != "ok" or node is None:
         return V("%s.roundtrip.parse_failed" % bip, node, "a node for %s" % text)
+    do_queries(node, pre, rec, ctx)
     d = diff_fields(fields_of(node, rec), ref, private)
     if d:
         return V("%s.roundtrip.%s" % (bip, d[0]), {"field": d[0], "got": d[1], "text": text}, d[2])
@@ -348,6 +473,13 @@ def chk_synthetic(case, rec, ctx):
     # the flavour and every field survive derivation and going public; children checked against the reference
     if case["depth"] >= 255:
         return
+    pubnode = None
+    if private:
+        rec.ev("public_copy")
+        st, pubnode = observe(node.public_copy)
+        if st != "ok":
+            return V("%s.public_copy_raises" % bip, pubnode, "a node")
+        do_queries(pubnode, pre_pub, rec, ctx)
     for i in case["children"]:
         rec.ev("subkey")
         hard = i >= HARD
@@ -371,15 +503,20 @@ def chk_synthetic(case, rec, ctx):
             exp = RB.to_text(rch, prv if want_private else pub, want_private)
             if st != "ok" or t != exp:
                 return V("%s.child_hwif_mismatch.%s" % (bip, "prv" if want_private else "pub"), t, exp)
-            st, back = node_from_text(ctx, code, bip, exp, rec)
+            st, back = node_from_text(ctx, code, bip, exp, rec, via, want_private)
             if st != "ok" or back is None:
-                return V("%s.roundtrip.parse_failed" % bip, back, "a node for %s" % exp)
+                return V("%s.roundtrip.parse_failed" % bip, {"via": via, "got": back}, "a node for %s" % exp)
+            if not hasattr(back, "tree_depth"):
+                return V("%s.roundtrip.parse_failed" % bip, {"via": via, "got": repr(back)[:100]}, "a node for %s" % exp)
+            st, again = observe(back.hwif, as_private=want_private)
+            if st != "ok" or again != exp:
+                return V("%s.roundtrip.text_changed" % bip, {"via": via, "got": again}, exp)
             d = diff_fields(fields_of(back, rec), rch, want_private)
             if d:
                 return V("%s.roundtrip.%s" % (bip, d[0]), {"field": d[0], "got": d[1], "text": exp}, d[2])
         if private and not hard:
             rec.ev("commutation")
-            st, viapub = observe(lambda: node.public_copy().subkey(i))
+            st, viapub = observe(pubnode.subkey, i)
             if st != "ok":
                 return V("%s.commute.raises" % bip, viapub, "a node")
             d = diff_fields(fields_of(viapub, rec), rch, False)
@@ -408,6 +545,8 @@ def run_nets(spec, rec, ctx):
             case = {"kind": "nets", "net": code, "bip": bip, "private": k % 2 == 0, "secret": secret, "chain_code": cc,
                     "depth": depth, "pfp": pfp, "child": child,
                     "children": [gen_index(rng) for _ in range(2)]}
+            if k % 4 >= 2:      # half of the cases: queries before deriving, another documented parse entry point
+                case.update({"pre": gen_queries(rng), "pre_pub": gen_queries(rng), "via": rng.choice(VIAS)})
             chk_synthetic(case, rec, ctx)
             if k == 0 and idx < 3:
                 rec.sample({"kind": "nets", "net": code, "bip": bip, "depth": depth, "child": child})
@@ -504,7 +643,8 @@ def run_spell(spec, rec, ctx):
 def chk_cache(case, rec, ctx):
     code, seed, base, public = case["net"], case["seed"], list(case["base"]), case["public"]
     net = ctx.nets[code]
-    rec.case(("cache", code, seed, tuple(base), public, tuple(tuple(c) for c in case["calls"])))
+    rec.case(("cache", code, seed, tuple(base), public, freeze(case["calls"]), freeze(case.get("q_first", [])),
+              freeze(case.get("late_q", [])), freeze(case.get("children")), freeze(case.get("paths", []))))
 
     def V(mech, observed, expected):
         rec.violation(mech, case, observed, expected)
@@ -518,6 +658,7 @@ def chk_cache(case, rec, ctx):
     if public:
         shared = shared.public_copy()
         rbase = rbase.neuter()
+    do_queries(shared, case.get("q_first", []), rec, ctx)
     st, own_text = observe(shared.hwif, as_private=not public)
     if st != "ok":
         return V("bip32.hwif_raises", own_text, "text")
@@ -525,8 +666,11 @@ def chk_cache(case, rec, ctx):
     def summary(n):
         f = fields_of(n, rec)
         return [f["secret"], f["public_pair"], f["chain_code"], f["depth"], f["parent_fingerprint"], f["child_number"]]
-    for k, (i, hard, ap) in enumerate(case["calls"]):
+    for k, call in enumerate(case["calls"]):
+        i, hard, ap = call[:3]
+        q_before, q_child = (call[3], call[4]) if len(call) >= 5 else ([], [])
         as_private = None if ap is None else bool(ap)
+        do_queries(shared, q_before, rec, ctx)
         rec.ev("subkey")
         rec.ev("cache_call")
         st, got = observe(shared.subkey, i, bool(hard), as_private)
@@ -554,6 +698,41 @@ def chk_cache(case, rec, ctx):
         d = diff_fields(fields_of(got, rec), rch, want_private)
         if d:
             return V("bip32.history.%s" % d[0], {"call": k, "args": [i, hard, ap], "got": d[1]}, d[2])
+        # the node handed out stays in the parent's cache: what the caller asks of it must not change what later
+        # derivations THROUGH it give (the paths below, repeated calls)
+        do_queries(got, q_child, rec, ctx)
+    # the children() entry point: every node it yields is the child the standard defines for the child number it carries
+    # (a public-only node may refuse as soon as a hardened child is due)
+    if case.get("children"):
+        max_level, start_index, include_hardened = case["children"]
+        rec.ev("children")
+        st, it = observe(lambda: iter(shared.children(max_level=max_level, start_index=start_index,
+                                                      include_hardened=bool(include_hardened))))
+        yielded = 0
+        while st == "ok":
+            st, n = observe(next, it)
+            if st != "ok":
+                if isinstance(n, StopIteration):
+                    break
+                if rbase.k is None and include_hardened:
+                    break
+                return V("bip32.children_raises", {"exc": n, "after": yielded, "args": case["children"]}, "child nodes")
+            yielded += 1
+            f = fields_of(n, rec)
+            ci = f["child_number"]
+            if not isinstance(ci, int) or not 0 <= ci < (1 << 32):
+                return V("bip32.children.child_number", ci, "a child number")
+            if rbase.k is None and ci >= HARD:
+                return V("bip32.hardened_from_public_accepted", {"how": "children", "args": case["children"]}, "an exception")
+            try:
+                rch = RB.ckd_priv(rbase, ci) if rbase.k is not None else RB.ckd_pub(rbase, ci)
+            except RB.Invalid:
+                continue
+            d = diff_fields(f, rch, rbase.k is not None)
+            if d:
+                return V("bip32.children.%s" % d[0], {"args": case["children"], "child_number": ci, "got": d[1]}, d[2])
+        if st == "ok" and yielded == 0:
+            return V("bip32.children_empty", {"args": case["children"]}, "at least one child")
     # a public copy taken AFTER the history (whatever the node cached so far must not leak into it): every hardened call
     # must be refused, every normal call must equal the reference public derivation
     if rbase.k is not None:
@@ -561,7 +740,9 @@ def chk_cache(case, rec, ctx):
         if st != "ok":
             return V("bip32.public_copy_raises", late_pub, "a node")
         rpub = rbase.neuter()
-        for k, (i, hard, ap) in enumerate(case["calls"]):
+        do_queries(late_pub, case.get("late_q", []), rec, ctx)
+        for k, call in enumerate(case["calls"]):
+            i, hard, ap = call[:3]
             rec.ev("late_public_copy_call")
             st, got = observe(late_pub.subkey, i, bool(hard), None if ap is None else False)
             if hard:
@@ -587,6 +768,22 @@ def chk_cache(case, rec, ctx):
             return V("bip32.cache_not_transparent", {"path": text, "shared": a if st != "ok" else "ok", "fresh": b if st_f != "ok" else "ok"}, "same outcome")
         if st == "ok" and summary(a) != summary(b):
             return V("bip32.cache_not_transparent", {"path": text, "shared_node": summary(a), "fresh_node": summary(b)}, "equal")
+        if st == "ok":
+            try:
+                rp = RB.derive(rbase, RB.parse_path(text))
+            except (RB.Invalid, RB.Refused):
+                rp = None
+            if rp is not None:
+                d = diff_fields(fields_of(a, rec), rp, rbase.k is not None)
+                if d:
+                    return V("bip32.history.path.%s" % d[0], {"path": text, "got": d[1]}, d[2])
+    # nothing that was asked changed the node itself
+    d = diff_fields(fields_of(shared, rec), rbase, not public)
+    if d:
+        return V("bip32.history.node_changed.%s" % d[0], d[1], d[2])
+    st, t = observe(shared.hwif, as_private=not public)
+    if st != "ok" or t != own_text:
+        return V("bip32.history.node_changed.text", t, own_text)
 
 
 def run_cache(spec, rec, ctx):
@@ -594,8 +791,12 @@ def run_cache(spec, rec, ctx):
     for k in range(spec["n"]):
         pool = [rng.choice(EDGE_INDICES) for _ in range(2)] + [rng.randrange(HARD)]
         calls = []
+        with_q = k % 3 != 0
         for _ in range(rng.choice([4, 8, 14])):
-            calls.append([rng.choice(pool), rng.random() < 0.45, rng.choice([None, None, 0, 1])])
+            call = [rng.choice(pool), rng.random() < 0.45, rng.choice([None, None, 0, 1])]
+            if with_q:       # queries on the shared node before the call, on the (cached) child after it
+                call += [gen_queries(rng, (0, 0, 0, 1, 2)), gen_queries(rng, (0, 0, 1, 1, 2))]
+            calls.append(call)
         if rng.random() < 0.5:       # the same calls again in another order
             again = list(calls)
             rng.shuffle(again)
@@ -607,9 +808,15 @@ def run_cache(spec, rec, ctx):
         case = {"kind": "cache", "net": rng.choice(["BTC", "XTN", rng.choice(ctx.codes)]), "seed": gen_seed(rng, k + 1),
                 "base": [gen_index(rng) for _ in range(rng.choice([0, 0, 1, 2]))], "public": rng.random() < 0.4,
                 "calls": calls, "paths": paths}
+        if with_q:
+            case.update({"q_first": gen_queries(rng), "late_q": gen_queries(rng)})
+            if rng.random() < 0.5:
+                ml = rng.choice([0, 1, 2])
+                case["children"] = [ml, rng.choice([0, 1, rng.choice(pool) % (HARD - 3), HARD - 1 - ml]), rng.random() < 0.6]
         chk_cache(case, rec, ctx)
         if k < 2:
-            rec.sample({"kind": "cache", "base": RB.path_text(case["base"]), "public": case["public"], "calls": calls[:6]})
+            rec.sample({"kind": "cache", "base": RB.path_text(case["base"]), "public": case["public"], "calls": calls[:6],
+                        "children": case.get("children")})
 
 
 # ---------------------------------------------------------------------------------------------------------
@@ -617,7 +824,8 @@ def run_cache(spec, rec, ctx):
 
 def chk_electrum(case, rec, ctx):
     net = ctx.nets[case["net"]]
-    rec.case(("electrum", case["net"], case.get("secret"), case.get("seed"), tuple(case["paths"])))
+    rec.case(("electrum", case["net"], case.get("secret"), case.get("seed"), tuple(case["paths"]),
+              tuple(case.get("q_w", [])), tuple(case.get("q_pw", []))))
 
     def V(mech, observed, expected):
         rec.violation(mech, case, observed, expected)
@@ -628,9 +836,11 @@ def chk_electrum(case, rec, ctx):
         st, w = observe(net.keys.electrum_private, master_private_key=case["secret"])
     if st != "ok":
         return V("electrum.construct_raises", w, "a wallet")
+    do_queries(w, case.get("q_w", []), rec, ctx)       # the catalogue entries a wallet does not have just raise
     st, pw = observe(w.public_copy)
     if st != "ok":
         return V("electrum.public_copy_raises", pw, "a wallet")
+    do_queries(pw, case.get("q_pw", []), rec, ctx)
     if pw.secret_exponent() is not None:
         return V("electrum.public_copy_keeps_secret", "secret present", None)
     st, mpk = observe(w.master_public_key)
@@ -677,6 +887,8 @@ def run_electrum(spec, rec, ctx):
             case["seed"] = "seed:%032x" % rng.choice([1, 0, rng.randrange(1 << 128)])
         else:
             case["secret"] = rng.choice([1, 2, RB.N - 1, RB.N - 2, rng.randrange(1, RB.N), rng.randrange(1, RB.N), rng.randrange(1, 1 << 64)])
+        if k % 2:
+            case.update({"q_w": gen_queries(rng), "q_pw": gen_queries(rng)})
         chk_electrum(case, rec, ctx)
         if k < 2:
             rec.sample(case)
@@ -689,10 +901,10 @@ KINDS = {"derive": (run_derive, chk_derive), "nets": (run_nets, chk_synthetic), 
 REQUIRED = {
     "derive": ["from_master_secret", "subkey_for_path", "subkey", "hwif", "public_copy", "commutation", "hardened_from_public",
                "parse.bip32", "accessor.secret", "accessor.public_pair", "accessor.chain_code", "accessor.depth",
-               "accessor.parent_fingerprint", "accessor.child_number"],
-    "nets": ["parse.bip32", "parse.bip49", "parse.bip84", "hwif", "subkey"],
+               "accessor.parent_fingerprint", "accessor.child_number", "query"],
+    "nets": ["parse.bip32", "parse.bip49", "parse.bip84", "hwif", "subkey", "query"],
     "spell": ["spelling", "subkeys"],
-    "cache": ["cache_call"],
+    "cache": ["cache_call", "query", "children"],
     "electrum": ["electrum.subkey", "electrum.commutation"],
 }
 
